@@ -61,6 +61,11 @@ func c11Gen(t *rapid.T) c11Case {
 		delete(c.Opts, "tokenColumn")
 		delete(c.Opts, "tokenLineOffset")
 	}
+	if rapid.IntRange(0, 2).Draw(t, "patternless") == 0 {
+		// terminals without a pattern in front of / between the rules: token numbers and rule
+		// numbers then differ, which matters when the compiler inlines rule -> token
+		c.Opts["patternless"] = "true"
+	}
 	small := rapid.IntRange(0, 3).Draw(t, "small") > 0
 	base, named, nsc := c09GenRules(t, c.bytes(), 5, small)
 	if c.fold() {
@@ -211,7 +216,13 @@ func (c *c11Case) render(name string) string {
 	for name, n := range c.Named {
 		fmt.Fprintf(&sb, "%s = /%s/\n", name, respec.Render(n))
 	}
-	for _, r := range c.Rules {
+	if c.Opts["patternless"] == "true" {
+		sb.WriteString("error:\n")
+	}
+	for ri, r := range c.Rules {
+		if ri == 1 && c.Opts["patternless"] == "true" {
+			sb.WriteString("reserved:\n")
+		}
 		if c.NSC > 1 {
 			var names []string
 			for _, s := range r.SCs {
@@ -276,14 +287,27 @@ func c11Expect(c *c11Case, src string) (toks []c11Tok, usedKeyword, usedBacktrac
 			classRE = c.Rules[i].RE
 		}
 	}
+	specialised := map[int]bool{} // rules moved under the class rule (not part of the DFA)
 	for i := range c.Rules {
 		kw := c.Rules[i].Keyword
-		if kw == "" || classRE == nil {
+		if classRE == nil || c.Rules[i].Class {
 			continue
+		}
+		if kw == "" {
+			// Any rule that matches exactly one string by construction is specialised as well,
+			// whatever its priority (compiler/lexer.go:resolveClasses).
+			v, isConst := respec.Constant(c.Rules[i].node(), respec.Env{Bytes: bytes, Fold: fold, RefFold: fold, Refs: c.Named})
+			if !isConst || v == "" {
+				continue
+			}
+			kw = v
 		}
 		lens, _ := respec.MatchLens(classRE, respec.Env{Bytes: bytes, Refs: c.Named}, kw)
 		if len(lens) > 0 && lens[len(lens)-1] == len(kw) {
-			keywords[kw] = &c.Rules[i]
+			if _, dup := keywords[kw]; !dup {
+				keywords[kw] = &c.Rules[i]
+			}
+			specialised[i] = true
 		}
 	}
 	lineOf := func(p int) (int, int) {
@@ -309,10 +333,8 @@ func c11Expect(c *c11Case, src string) (toks []c11Tok, usedKeyword, usedBacktrac
 		tie := false
 		for i := range c.Rules {
 			r := &c.Rules[i]
-			if r.Keyword != "" {
-				if _, specialised := keywords[r.Keyword]; specialised {
-					continue
-				}
+			if specialised[i] {
+				continue
 			}
 			active := false
 			for _, s := range r.SCs {
